@@ -126,7 +126,7 @@ pub fn check_key(rk: &RKey, lexicographic: bool, via_decode: bool, l: &mut Local
 
 pub fn explore(ex: &Ex) {
     let pal = extra_palette();
-    let kmax = ex.pick(2usize, 3, 4);
+    let kmax = ex.pick(2usize, 3, 5);
     ex.bound("c20", "extras_max", json!(kmax));
     ex.bound("c20", "extra_label_palette", json!(pal.len()));
     // ordered selections without repetition
